@@ -263,7 +263,11 @@ func (r *runner) flush() {
 		for i := 0; i < 5 && ok; i++ {
 			v2, err2, pv2 := callJA3(append([]byte(nil), p.rec...))
 			if o2 := obsOf(v2, err2, pv2); o2 != p.obs {
-				rep.HarnessError("%s: failing case did not reproduce (run %d gave %q, first %q): %s", p.phase, i, o2, p.obs, p.desc)
+				// the same bytes gave two different results on one goroutine: the value is not a pure function of the
+				// ClientHello bytes (it depends on what was fingerprinted before) - that is itself what the property forbids
+				rep.Violate(map[string]any{"kind": "value-depends-on-history", "seam": "A"},
+					map[string]any{"record_hex": fmt.Sprintf("%x", p.rec), "first": p.obs, "again": o2, "case": p.desc, "phase": p.phase},
+					"the same ClientHello bytes gave %q and, evaluated again, %q - the JA3 value is not a pure function of the ClientHello bytes [case %s]", p.obs, o2, p.desc)
 				ok = false
 			}
 		}
